@@ -17,7 +17,7 @@ import subprocess
 import vlib
 from formatting_shim import to_pascal
 
-THEOREMS = ["Yardl.C07.cpp_writer_iff", "Yardl.C07.py_writer_iff", "Yardl.C07.cpp_reader_iff", "Yardl.C07.py_reader_iff",
+THEOREMS = ["Yardl.C07.cpp_writer_iff", "Yardl.C07.py_writer_iff", "Yardl.C07.cpp_reader_iff", "Yardl.C07.py_reader_iff", "Yardl.C07.abandoned_stream_blocks_the_reader",
             "Yardl.C07.spec_close_cpp_writer", "Yardl.C07.spec_out_of_order_write_cpp", "Yardl.C07.spec_close_cpp_reader",
             "Yardl.C07.spec_close_py_reader"]
 
@@ -153,6 +153,16 @@ for line in sys.stdin:
                     v = getattr(r, f"read_s{i}")()
                     if shapes[k][i]:
                         pending[i] = v
+                elif tok[0] == "p":
+                    # take one item, then drop the iterable before its end (what leaving a for loop early and letting the
+                    # generator go does): nothing can be taken from it afterwards
+                    i = int(tok[1:])
+                    if i not in pending:
+                        raise RuntimeError("no outstanding iterable")
+                    it = iter(pending.pop(i))
+                    next(it)
+                    it.close()
+                    del it
                 else:
                     i = int(tok[1:])
                     if i not in pending:
@@ -192,6 +202,8 @@ def gen_seq(rng, machine, shape, length):
         else:
             if r < 0.12:
                 seq.append(["c"])
+            elif r < 0.2:
+                seq.append(["p", i])
             elif r < 0.45:
                 seq.append(["x", i]); pos = i + 1
             else:
@@ -276,7 +288,7 @@ def run(report, tier, seed):
                         elif machine == "cppR":
                             alpha += [["r", i, True], ["r", i, False]] + ([["B", i, True], ["B", i, False]] if shape[i] else [])
                         else:
-                            alpha += [["r", i]] + ([["x", i]] if shape[i] else [])
+                            alpha += [["r", i]] + ([["x", i], ["p", i]] if shape[i] else [])
                     for L in range(1, maxlen + 1):
                         allseq = list(itertools.product(alpha, repeat=L))
                         if len(allseq) > (400 if quick else 4000):
@@ -289,7 +301,7 @@ def run(report, tier, seed):
                     if ["c"] in seq:
                         seq = seq[:seq.index(["c"]) + 1]
                     # calls that do not exist in the generated API (batch/end on a non-stream step) are skipped
-                    if any(op[0] in ("e", "B", "x") and not shape[op[1]] for op in seq if op[0] != "c"):
+                    if any(op[0] in ("e", "B", "x", "p") and not shape[op[1]] for op in seq if op[0] != "c"):
                         continue
                     m = lean.ask({"op": "proto_run", "machine": machine, "shape": shape, "ops": seq})
                     want = -1 if m["reject"] is None else m["reject"]
